@@ -281,6 +281,7 @@ def _mk_leaves():
     # user subclasses of builtin scalars as TARGET types (the routine has to build the subclass, from every carrier)
     add(Leaf("StrSub", "StrSub", lambda ns: [ns["StrSub"](x) for x in ("a", "", "1", "null", "é")], lambda v: str(v), _cls("StrSub")))
     add(Leaf("IntSub", "IntSub", lambda ns: [ns["IntSub"](x) for x in (0, 1, -1, 7)], lambda v: int(v), _cls("IntSub")))
+    add(Leaf("IntSub2", "IntSub2", lambda ns: [ns["IntSub2"](x) for x in (0, 1, 7)], lambda v: int(v), _cls("IntSub2")))
     add(LiteralLeaf("Lit12", "Literal[1, 2]", [1, 2]))
     add(LiteralLeaf("Litab", 'Literal["a", "b"]', ["a", "b"]))
     add(LiteralLeaf("Lit1s1", 'Literal["1", 1]', ["1", 1]))
@@ -319,6 +320,7 @@ def _mk_leaves():
     add(struct("PCinh", kw, hashable=True))
     add(struct("PCinit", kw, hashable=True))
     add(struct("PCinitE", kw, hashable=True))
+    add(struct("PCkwo", kw, hashable=True))
     add(struct("SOleaf", kw, hashable=True))
     add(struct("SC", kw, hashable=True))
     td = struct("TD", lambda c, a, b: {"a": a, "b": b})
@@ -605,6 +607,8 @@ class Map(Term):
         "typing.Mapping": (dict, collections.abc.Mapping),
         "collections.abc.Mapping": (dict, collections.abc.Mapping),
         "typing.MutableMapping": (dict, collections.abc.MutableMapping),
+        # a concrete mapping class other than dict as TARGET: the result is an instance of that class
+        "collections.OrderedDict": (collections.OrderedDict, collections.OrderedDict),
     }
 
     def __init__(self, spelling, k, v):
@@ -645,6 +649,8 @@ class Map(Term):
                             d = {kk[i1]: _member_vals(vt, ns, w, r, top)[j1], kk[i2]: _member_vals(vt, ns, w, r, top)[j2]}
                             if len(d) == 2:
                                 out.append(d)
+        if self.origin is not dict:
+            out = [self.origin(d) for d in out]  # valid values are instances of the annotated concrete class
         return out
 
     def wire(self, ns, v):
@@ -652,7 +658,7 @@ class Map(Term):
         return {kt.wire(ns, k): vt.wire(ns, x) for k, x in v.items()}
 
     def conforms(self, ns, x, strict=False):
-        if not (type(x) is dict if strict else isinstance(x, self.abc)):
+        if not (type(x) is self.origin if strict else isinstance(x, self.abc)):
             return False
         kt, vt = self.args
         return all(kt.conforms(ns, k, strict) and vt.conforms(ns, e, strict) for k, e in x.items())
